@@ -162,6 +162,117 @@ theorem export_target_entries_valid_and_faithful (ge se : String × String × St
                 exact .inr ⟨hv, List.mem_cons_self, hg⟩
             · exact .inr ⟨a, List.mem_cons_of_mem _ b, c⟩
 
+theorem tgtHas_append (t u : Tgt) (n : Bytes) : tgtHas (t ++ u) n = (tgtHas t n || tgtHas u n) := by
+  simp only [tgtHas, List.map_append]
+  by_cases h1 : n ∈ List.map (fun x => x.fst) t <;> by_cases h2 : n ∈ List.map (fun x => x.fst) u <;> simp [h1, h2]
+
+/-- the target only grows: a name present before the run is present after it (any source, any gated target) -/
+theorem export_target_keeps_names (ge se : String × String × String) (txt : Bytes → String)
+    (valid : Bytes → Bool) (save : Tgt → Bytes → Nat → Tgt × SaveOut) (hsave : GatedSave valid save) (get : Bytes → SrcGet)
+    (x : Bytes) :
+    ∀ (names : List Bytes) (t : Tgt) (acc : List Bytes), tgtHas t x = true →
+      tgtHas (exportLoop ge se txt get save names t acc).target x = true := by
+  intro names
+  induction names with
+  | nil => intro t acc h; simpa [exportLoop] using h
+  | cons n rest ih =>
+    intro t acc h
+    unfold exportLoop
+    cases hg : get n with
+    | err e => exact h
+    | key k =>
+      simp only []
+      cases hs : save t n k with
+      | mk t' o =>
+        have hc := hsave t n k t' o hs
+        have ht' : tgtHas t' x = true := by
+          rcases hc with ⟨rfl, _⟩ | ⟨_, rfl, _⟩
+          · exact h
+          · rw [tgtHas_append, h]; rfl
+        cases o with
+        | dup => exact ih t' acc ht'
+        | err e => exact ht'
+        | ok => exact ih t' _ ht'
+
+/-- a target that answers "already exists" only for a name it holds -/
+def DupMeansPresent (save : Tgt → Bytes → Nat → Tgt × SaveOut) : Prop :=
+  ∀ t n k t', save t n k = (t', SaveOut.dup) → tgtHas t n = true
+
+theorem wrappedSave_dup (valid : Bytes → Bool) (txt : Bytes → String) (fault : Bytes → Option String) :
+    DupMeansPresent (wrappedSave valid txt fault) := by
+  intro t n k t' h
+  unfold wrappedSave at h
+  by_cases hv : valid n = true
+  · simp only [hv, Bool.not_true, Bool.false_eq_true, if_false] at h
+    cases hf : fault n with
+    | some e => simp only [hf] at h; cases h
+    | none =>
+      simp only [hf] at h
+      by_cases hh : tgtHas t n = true
+      · exact hh
+      · simp only [hh] at h; cases h
+  · have hv' : valid n = false := by simpa using hv
+    simp only [hv', Bool.not_false, if_true] at h
+    cases h
+
+theorem wrappedPut_dup (valid : Bytes → Bool) (txt : Bytes → String) (fault : Bytes → Option String) :
+    DupMeansPresent (wrappedPut valid txt fault) := by
+  intro t n k t' h
+  unfold wrappedPut at h
+  by_cases hv : valid n = true
+  · simp only [hv, Bool.not_true, Bool.false_eq_true, if_false] at h
+    cases hf : fault n with
+    | some e => simp only [hf] at h; cases h
+    | none => simp only [hf] at h; cases h
+  · have hv' : valid n = false := by simpa using hv
+    simp only [hv', Bool.not_false, if_true] at h
+    cases h
+
+/-- **a run that reports success moved every listed key**: if the command ends without an error, every name the source
+    listed is in the target afterwards (stored now, or already there) — no key is skipped silently. Any source, any
+    gated target that says "exists" only for names it holds (the wrapped recording backend, the wrapped Vault). -/
+theorem export_success_means_all_listed_present (ge se : String × String × String) (txt : Bytes → String)
+    (valid : Bytes → Bool) (save : Tgt → Bytes → Nat → Tgt × SaveOut) (hsave : GatedSave valid save)
+    (hdup : DupMeansPresent save) (get : Bytes → SrcGet) :
+    ∀ (names : List Bytes) (t : Tgt) (acc : List Bytes),
+      (exportLoop ge se txt get save names t acc).error = none →
+      ∀ x ∈ names, tgtHas (exportLoop ge se txt get save names t acc).target x = true := by
+  intro names
+  induction names with
+  | nil => intro t acc _ x hx; cases hx
+  | cons n rest ih =>
+    intro t acc
+    unfold exportLoop
+    cases hg : get n with
+    | err e => intro h; cases h
+    | key k =>
+      simp only []
+      cases hs : save t n k with
+      | mk t' o =>
+        have hc := hsave t n k t' o hs
+        cases o with
+        | err e => intro h; cases h
+        | dup =>
+          simp only []
+          intro herr x hx
+          rcases List.mem_cons.mp hx with rfl | hx
+          · have : tgtHas t' x = true := by
+              rcases hc with ⟨rfl, _⟩ | ⟨h, _⟩
+              · exact hdup _ _ _ _ hs
+              · cases h
+            exact export_target_keeps_names ge se txt valid save hsave get x rest t' acc this
+          · exact ih t' acc herr x hx
+        | ok =>
+          simp only []
+          intro herr x hx
+          rcases List.mem_cons.mp hx with rfl | hx
+          · have : tgtHas t' x = true := by
+              rcases hc with ⟨_, h⟩ | ⟨_, rfl, _⟩
+              · exact absurd rfl h
+              · rw [tgtHas_append]; simp [tgtHas]
+            exact export_target_keeps_names ge se txt valid save hsave get x rest t' _ this
+          · exact ih t' _ herr x hx
+
 /-- key values do not matter for what a source answer looks like to the command -/
 def getShape : SrcGet → Option String
   | .key _ => none
@@ -341,6 +452,13 @@ example :
         (fun b => String.ofList (b.map Char.ofNat)) (fun _ => none)) []
     r.exported = [[107]] ∧ r.target = [([107], 7)] ∧
     r.error = some "unable to store private key in Vault (kid=..): invalid key ID: .." := by decide
+
+/-- a run that ends without error exists (so `export_success_means_all_listed_present` is not vacuous) -/
+example :
+    (fs2target C03.exportGetErr C03.exportSaveErr (fun b => String.ofList (b.map Char.ofNat))
+      [[107, 95, 112]] [112] (fun _ => .key 7) (fun _ => "missing")
+      (wrappedSave (fun n => (validName? C03.kidPatternRx C03.validateKIDRefusedNames n).getD false)
+        (fun b => String.ofList (b.map Char.ofNat)) (fun _ => none)) []).error = none := by decide
 
 /-- the hypotheses of the noninterference theorem are satisfiable with different keys -/
 example : ∀ n : Bytes, getShape ((fun (_ : Bytes) => SrcGet.key 1) n) = getShape ((fun (_ : Bytes) => SrcGet.key 2) n) := fun _ => rfl
